@@ -427,6 +427,17 @@ def _canon(v):
     return "<" + type(v).__name__ + ">"
 
 
+def _objects(part):
+    """All objects starting at some time point of the part.  (Part.iter_all() without a class walks every
+    subclass of `object` through the defaultdicts of every TimePoint and thereby inserts thousands of empty
+    entries into the argument, which makes later deep copies very slow -- read the dicts directly.)"""
+    out = []
+    for tp in part._points:
+        for cls in list(tp.starting_objects.keys()):
+            out.extend(tp.starting_objects[cls])
+    return out
+
+
 def flatten(obj):
     """Score or Part -> sorted list of (key, fingerprint of everything but the pitch, raw pitch or None).
     Pitch = (step, alter, octave) of Note / GraceNote objects exactly as stored."""
@@ -444,7 +455,7 @@ def flatten(obj):
         pfp = "Part{" + ",".join("%s=%s" % (k, _canon(v)) for k, v in sorted(pv.items())) + "}" + \
               "points=" + _canon([tp.t for tp in p._points])
         out.append(((pi, -1, "", ""), pfp, None))
-        for o in p.iter_all():
+        for o in _objects(p):
             d = dict(vars(o))
             d.pop("_ref_attrs", None)
             pitch = None
@@ -463,7 +474,7 @@ def objects_of(obj):
     ids = {id(obj)}
     for p in parts:
         ids.add(id(p))
-        for o in p.iter_all():
+        for o in _objects(p):
             ids.add(id(o))
     return ids
 
@@ -526,7 +537,7 @@ def driver_oracle(r, iv):
 
 
 def celems(flat):
-    return clist(["(%s,%s)" % (cz(h48(k, f)), "None" if p is None else "(Some %s)" % cpitch(canon_pitch(p)))
+    return clist(["(%s,%s)" % (zt(h48(k, f)), "None" if p is None else "(Some %s)" % cpitch(canon_pitch(p)))
                   for k, f, p in flat])
 
 
@@ -618,13 +629,14 @@ def run_driver(ctx):
         if (feats & {"tie", "grace"}) and not (iv[0] == 1 and iv[1] == "P"):
             ctx.nontrivial(("driver", json.dumps(spec, sort_keys=True), iv))
         n, q, d = iv
-        terms.append("(%s,%s,%s,%s,%s,%s,%s)" % (cz(n), cz(QUALS.index(q)), cbool(d == "up"), celems(r["before"]),
+        terms.append("(%s,%s,%s,%s,%s,%s,%s)" % (zt(n), zt(QUALS.index(q)), cbool(d == "up"), celems(r["before"]),
                                                  celems(r["result"]), celems(r["after"]), celems(r["back"])))
         kept.append(replay_obj)
         if len(ctx.samples) < 4 and feats >= {"tie", "grace"}:
             ctx.sample({"driver_case": {"arg": spec["arg"], "interval": list(iv), "parts": len(spec["parts"]),
                                         "elements": len(r["before"]),
                                         "first_notes": [[list(p0), list(p1)] for (_, _, p0), (_, _, p1) in zip(r["before"], r["result"]) if p0][:4]}})
+    ctx.log('driver: %d runs done, %d cases to Coq' % (len(jobs), len(terms)))
     try:
         failing = ctx.coq_failing("driver", "From PV Require Import Model.C16.", "", terms, "driver_ok", shard=150)
         detail = failing[:5]
@@ -667,8 +679,11 @@ def run(ctx):
     if g0:
         ctx.sample({"table_row": {"interval": [g0[0], QUALS[g0[1]], "up" if g0[2] else "down"], "in": g0[3][40][0], "out": g0[3][40][1]}})
     bad = oracle_tables(T)
+    ctx.log('tables written, %d rows, %d oracle failures' % (nrows, len(bad)))
     pre = prebuild_gen(ctx)
+    ctx.log('table shards built')
     ok, why = ctx.coq_props(expect_min=12)
+    ctx.log('Props/C16.v checked: %s %s' % (ok, why[:300]))
     for what, rep in bad[:8]:
         ctx.violation(what, rep)
     if not ok and not bad:
